@@ -30,7 +30,10 @@ RULE = ("reference replies for 0..6 towers x every tower-length residue mod 8 x 
         "status in {0, 0x16c9a0d6, 1, 2^32-1} x entry handle on/off, plus seeded random towers; hostile replies: tower counts 2^40, 2^63, 2^64-1 and counts just over what fits, "
         "floor counts up to 65535, truncations and mutations of valid replies; non-trivial = a port was returned or a distinct error class; distinct = distinct input text")
 
-PARTIAL: t.List[str] = []
+PARTIAL: t.List[str] = [
+    "C18_linear bounds ticks and kept towers for replies that decode (Ok); for replies that raise, the theorem gives fuel sufficiency "
+    "(no loop exceeds length + 1 iterations, count guard first) and the step budget of epm.hostile measures the rest",
+]
 
 
 # ---------------------------------------------------------------------------------------------------
